@@ -2516,7 +2516,7 @@ func genGlobalVarDecl(nodes []*node, sc *scope) (*node, error) {
 	inited := map[*node]bool{}
 	revisit := []*node{}
 	for {
-		for _, n := range nodes {
+		for i, n := range nodes {
 			canInit := true
 			for _, d := range deps[n] {
 				if !inited[d] {
@@ -2530,6 +2530,13 @@ func genGlobalVarDecl(nodes []*node, sc *scope) (*node, error) {
 
 			varNode.child = append(varNode.child, n)
 			inited[n] = true
+
+			// The next variable to initialize is the earliest in declaration
+			// order which is ready (see "Package initialization" in the Go
+			// specification): a variable skipped above may be ready now, so
+			// restart the scan from the first remaining variable.
+			revisit = append(revisit, nodes[i+1:]...)
+			break
 		}
 
 		if len(revisit) == 0 || equalNodes(nodes, revisit) {
